@@ -116,3 +116,16 @@ package defers
 //@   loop stack invariant frame: forall i int :: 0 <= i && i < len(initial) ==> initial[i] == old(initial[i])
 //@   loop stack invariant rep: repeated <==> old(exists i int :: 0 <= i && i < iter(stack) && holds(initial[i], block, ins))
 //@   loop entry invariant rep_inner: thisStackRepeated <==> (exists j int :: 0 <= j && j < iter(entry) && stack[j].Block == block && stack[j].Ins == ins)
+
+// ---------------------------------------------------------------------------
+// C16, worklist discipline of the block-level fixpoint: the change flags are the
+// pending work. A flag that is set when the propagation to the successors of the
+// current block ends (it may have been raised by that very propagation -- a block can
+// be its own successor) is still set when the iteration for the block ends: nothing
+// clears pending work after it was recorded. (bk is an arbitrary block index.)
+//@ func AnalyzeFunction
+//@   property C16
+//@   option havoc:*
+//@   ghost bk int
+//@   requires fn != nil
+//@   loop 3 body pending_work_kept: passed(5) && 0 <= bk && bk < len(dataflowBlockChanged) && atexit(5, dataflowBlockChanged[bk]) ==> dataflowBlockChanged[bk]
